@@ -161,6 +161,7 @@ def native_run(target, inputs, choices):
     """Run the REAL function from /repo natively on the stub state built from a model.
     Returns (ctx, st, out, clauses)"""
     ctx = Ctx('concrete', model=inputs, choices=choices, native=True)
+    ctx.class_constants = []
     set_current_ctx(ctx)
     try:
         st = target.setup(ctx)
@@ -191,7 +192,10 @@ def native_run(target, inputs, choices):
                 fn = cls.__dict__.get(mname)
                 if isinstance(fn, (str, int, float, tuple, list, dict, frozenset, set, __import__('re').Pattern)):
                     import copy as _copy
-                    return _copy.deepcopy(fn)          # a class-level constant: a private copy, as in the symbolic run
+                    cp = _copy.deepcopy(fn)            # a class-level constant: a private copy, as in the symbolic run
+                    if isinstance(fn, (list, dict, set)):
+                        ctx.class_constants.append(('%s.%s' % (icls, mname), _copy.deepcopy(fn), cp))
+                    return cp
                 if isinstance(fn, property):
                     return _PropertyFB(_types.MethodType(fn.fget, obj))
                 if fn is None:
@@ -220,6 +224,7 @@ def native_run(target, inputs, choices):
         with target.patched(externs):
             out = target.run_native(ctx, st)
             clauses = list(target.ensures(ctx, st, out))     # evaluated under the same patched externs
+        clauses += _class_constant_frame(ctx)
         return ctx, st, out, clauses
     finally:
         set_current_ctx(None)
@@ -251,6 +256,7 @@ def explore_chunk(target, work, limit, carve_names, tier, cross_check=True):
     carve = {label: target.carve_outs[name] for label, name in (carve_names or {}).items()}
 
     def run_path(ctx):
+        ctx.class_constants = []
         st = target.setup(ctx)
         ctx.assume_checked(target.requires(ctx, st))
         externs = target.externs(ctx, st)
@@ -294,7 +300,10 @@ def explore_chunk(target, work, limit, carve_names, tier, cross_check=True):
                         k = getattr(k, part)
                     v = k.__dict__.get(mname, None)
                     if isinstance(v, (str, int, float, tuple, list, dict, frozenset, set, __import__('re').Pattern)):
-                        return _copy.deepcopy(v)
+                        cp = _copy.deepcopy(v)
+                        if isinstance(v, (list, dict, set)):
+                            ctx.class_constants.append(('%s.%s' % (icls, mname), _copy.deepcopy(v), cp))
+                        return cp
                     d = _ex.constructor_default(ifile, icls, mname)
                     if d is not None:
                         return _FieldDefault(d[1])
@@ -330,6 +339,8 @@ def explore_chunk(target, work, limit, carve_names, tier, cross_check=True):
             out = None
         if out is not None:
             for label, goal in target.ensures(ctx, st, out):
+                ctx.oblige(label, goal)
+            for label, goal in _class_constant_frame(ctx):
                 ctx.oblige(label, goal)
         return PathResult(ctx, 'done' if out is not None else 'loop-body', out, st)
 
@@ -375,6 +386,22 @@ def explore_chunk(target, work, limit, carve_names, tier, cross_check=True):
     except Exception as err:
         rep.errors.append(('crash', "%s: %s\n%s" % (type(err).__name__, err, traceback.format_exc()[-2000:])))
     return rep, work
+
+
+def _class_constant_frame(ctx):
+    """FRAME obligation added to every target: the mutable class-level constants (tables, lists, default dictionaries) that
+    the code under contract read through the real class are left as they were.  A function that extends such a constant
+    changes what every later call -- of every instance, for the rest of the process -- sees (history dependence)."""
+    out = []
+    for name, original, current in getattr(ctx, 'class_constants', []):
+        try:
+            same = (original == current)
+        except Exception:
+            same = True
+        out.append(('class-level-constants-are-left-unchanged', bool(same) if isinstance(same, bool) else True))
+    if not out:
+        return []
+    return [('class-level-constants-are-left-unchanged', all(v for _, v in out))]
 
 
 def _probe_sample(target, rep, ctx):
